@@ -36,7 +36,60 @@ type memModel struct {
 	small    bool
 	painted  uint64          // small: [0, painted) holds the pattern
 	hot      map[uint64]bool // large: painted 64 KiB chunks
-	diff     map[uint64]byte
+	diff     []seg // writes of the case being simulated, in program order (later segments win)
+}
+
+type seg struct {
+	addr uint64
+	data []byte
+}
+
+func (m *memModel) clearDiff() { m.diff = m.diff[:0] }
+
+// wrote reports whether the reference wrote the byte at addr.
+func (m *memModel) wrote(addr uint64) bool {
+	for _, s := range m.diff {
+		if addr >= s.addr && addr < s.addr+uint64(len(s.data)) {
+			return true
+		}
+	}
+	return false
+}
+
+// applyDiff overlays the written bytes that fall into [at, at+len(dst)) onto dst.
+func (m *memModel) applyDiff(dst []byte, at uint64) (any bool) {
+	end := at + uint64(len(dst))
+	for _, s := range m.diff {
+		lo, hi := s.addr, s.addr+uint64(len(s.data))
+		if lo < at {
+			lo = at
+		}
+		if hi > end {
+			hi = end
+		}
+		if lo < hi {
+			copy(dst[lo-at:hi-at], s.data[lo-s.addr:hi-s.addr])
+			any = true
+		}
+	}
+	return
+}
+
+// restoreBase writes the base image (pattern or zero) back over every written byte that falls into [at, at+len(dst)).
+func (m *memModel) restoreBase(dst []byte, at uint64) {
+	end := at + uint64(len(dst))
+	for _, s := range m.diff {
+		lo, hi := s.addr, s.addr+uint64(len(s.data))
+		if lo < at {
+			lo = at
+		}
+		if hi > end {
+			hi = end
+		}
+		for a := lo; a < hi; a++ {
+			dst[a-at] = m.base(a)
+		}
+	}
 }
 
 func (m *memModel) base(addr uint64) byte {
@@ -53,8 +106,10 @@ func (m *memModel) base(addr uint64) byte {
 }
 
 func (m *memModel) get(addr uint64) byte {
-	if b, ok := m.diff[addr]; ok {
-		return b
+	for i := len(m.diff) - 1; i >= 0; i-- {
+		if s := m.diff[i]; addr >= s.addr && addr < s.addr+uint64(len(s.data)) {
+			return s.data[addr-s.addr]
+		}
 	}
 	return m.base(addr)
 }
@@ -62,15 +117,14 @@ func (m *memModel) get(addr uint64) byte {
 func (m *memModel) read(addr, n uint64) []byte {
 	b := make([]byte, n)
 	for i := uint64(0); i < n; i++ {
-		b[i] = m.get(addr + i)
+		b[i] = m.base(addr + i)
 	}
+	m.applyDiff(b, addr)
 	return b
 }
 
 func (m *memModel) write(addr uint64, b []byte) {
-	for i, x := range b {
-		m.diff[addr+uint64(i)] = x
-	}
+	m.diff = append(m.diff, seg{addr, append([]byte{}, b...)})
 }
 
 func (m *memModel) grow() {
